@@ -3,6 +3,7 @@ Sidecar contracts on numqi.sim.state, numqi.sim.dm, numqi.sim.circuit.Circuit.""
 import itertools, time
 import numpy as np
 import sympy as sp
+import torch
 import z3
 import numqi
 import numqi.sim.state as st
@@ -524,6 +525,87 @@ def job_circuit_histories(tier, rng):
             if not from_repo(e):
                 raise
             chk(False, step='exception', n=n, exception=f'{type(e).__name__}: {e}')
+    # placeholder parameters: gates declared with circ.P[...] take their value from setP; a second setP must be reflected too
+    for t in range(10 if tier == 'quick' else 40):
+        try:
+            n = 3
+            c = numqi.sim.Circuit()
+            c.rx(0, c.P[0]); c.ry(1, c.P['ry']); c.rz(2, c.P['rz'][1]); c.cnot(0, 2)
+            for rep in range(2):
+                v0, v1 = float(rng.uniform(0.1, 3)), float(rng.uniform(0.1, 3)); vz = rng.uniform(0.1, 3, size=3)
+                c.setP(np.array([v0]), ry=v1, rz=vz)
+                U = SS.ctrl_embed(np.asarray(G.X, dtype=complex), [0], [2], n) @ _kron_embed(G.rz(float(vz[1])), [2], n) @ _kron_embed(G.ry(v1), [1], n) @ _kron_embed(G.rx(v0), [0], n)
+                q = _rc(rng, 2 ** n)
+                chk(np.abs(c.to_unitary() - U).max() < 1e-9 and np.abs(c.apply_state(q) - U @ q).max() < 1e-9, step=f'setP #{rep + 1}', n=n)
+        except Exception as e:
+            from vf.prover import from_repo
+            if not from_repo(e):
+                raise
+            chk(False, step='setP exception', exception=f'{type(e).__name__}: {e}')
+    # torch wrapper: after the trainable parameters change, forward() uses the new values and fresh_gate_parameter() writes them back into the numpy circuit
+    for t in range(6 if tier == 'quick' else 20):
+        try:
+            n = 3
+            c = numqi.sim.Circuit(default_requires_grad=True)
+            g0 = c.rx(0, 0.3); c.cnot(0, 1); g1 = c.ry(2, 0.5); c.append_gate(g0, 1)          # g0 shared by two positions
+            w = numqi.sim.CircuitTorchWrapper(c)
+            new = {k_: rng.uniform(0.1, 3, size=tuple(v_.shape)) for k_, v_ in w.theta.items()}
+            with torch.no_grad():
+                for k_, v_ in w.theta.items():
+                    v_.copy_(torch.tensor(new[k_]))
+            q = _rc(rng, 2 ** n)
+            out_t = w(torch.tensor(q)).detach().numpy()
+            w.fresh_gate_parameter()
+            out_n = c.apply_state(q)
+            a_ = float(g0.args[0]); b_ = float(g1.args[0])
+            U = _kron_embed(G.rx(a_), [1], n) @ _kron_embed(G.ry(b_), [2], n) @ SS.ctrl_embed(np.asarray(G.X, dtype=complex), [0], [1], n) @ _kron_embed(G.rx(a_), [0], n)
+            vals = sorted(float(x) for v_ in new.values() for x in np.asarray(v_).ravel())
+            chk(len(vals) == 2 and np.abs(out_t - out_n).max() < 1e-9 and np.abs(out_n - U @ q).max() < 1e-9 and np.allclose(sorted([a_, b_]), vals), step='torch wrapper fresh_gate_parameter', n=n)
+        except Exception as e:
+            from vf.prover import from_repo
+            if not from_repo(e):
+                raise
+            chk(False, step='torch wrapper exception', exception=f'{type(e).__name__}: {e}')
+    # four-qubit gates on every ordered choice of 4 out of 4 / 5 qubits (a sample of the 24 / 120 orders)
+    import itertools as _it
+    for n in (4, 5):
+        orders = list(_it.permutations(range(n), 4))
+        for idx in [orders[int(k)] for k in rng.choice(len(orders), size=6 if tier == 'quick' else 24, replace=False)]:
+            try:
+                U4 = numqi.random.rand_haar_unitary(16, seed=int(rng.integers(0, 2 ** 31)))
+                c = numqi.sim.Circuit(); c.quadruple_qubit_gate(U4, *idx)
+                if max(idx) < n - 1:
+                    c.single_qubit_gate(np.eye(2), n - 1)
+                q = _rc(rng, 2 ** n)
+                E = SS.embed(U4, list(idx), n)
+                chk(np.abs(c.apply_state(q) - E @ q).max() < 1e-9 and np.abs(c.to_unitary() - E).max() < 1e-9, step='quadruple_qubit_gate', n=n, idx=list(idx))
+            except Exception as e:
+                from vf.prover import from_repo
+                if not from_repo(e):
+                    raise
+                chk(False, step='quadruple exception', idx=list(idx), exception=f'{type(e).__name__}: {e}')
+    # qudit rotations: unitary, determinant one, one-parameter group, period 4 pi, d=2 restores the qubit gate, torch == numpy; Weyl pair X, Z, H
+    for d in (2, 3, 4, 5):
+        try:
+            a, b = float(rng.uniform(0, 6)), float(rng.uniform(0, 6))
+            for f in (G.rx, G.rz):
+                Ua, Ub, Uab = f(a, d), f(b, d), f(a + b, d)
+                ok = np.abs(Ua.conj().T @ Ua - np.eye(d)).max() < 1e-10 and abs(np.linalg.det(Ua) - 1) < 1e-9 and np.abs(Ua @ Ub - Uab).max() < 1e-9 and np.abs(f(a + 4 * np.pi, d) - Ua).max() < 1e-9
+                ok = ok and np.abs(f(torch.tensor(a, dtype=torch.float64), d).numpy() - Ua).max() < 1e-10
+                if d == 2:
+                    ref = np.array([[np.cos(a / 2), -1j * np.sin(a / 2)], [-1j * np.sin(a / 2), np.cos(a / 2)]]) if f is G.rx else np.diag([np.exp(-0.5j * a), np.exp(0.5j * a)])
+                    ok = ok and np.abs(Ua - ref).max() < 1e-12
+                chk(ok, step='qudit rotation', d=d, gate=f.__name__, theta=a)
+            X, Z, Hd = G.get_quditX(d), G.get_quditZ(d), G.get_quditH(d)
+            w = np.exp(2j * np.pi / d)
+            ok = np.abs(Z @ X - w * X @ Z).max() < 1e-12 and np.abs(np.linalg.matrix_power(X, d) - np.eye(d)).max() < 1e-12 and np.abs(np.linalg.matrix_power(Z, d) - np.eye(d)).max() < 1e-10
+            ok = ok and np.abs(Hd.conj().T @ Hd - np.eye(d)).max() < 1e-12 and (np.abs(Hd @ X @ Hd.conj().T - Z).max() < 1e-10 or np.abs(Hd.conj().T @ X @ Hd - Z).max() < 1e-10 or np.abs(Hd @ Z @ Hd.conj().T - X).max() < 1e-10 or np.abs(Hd.conj().T @ Z @ Hd - X).max() < 1e-10)
+            chk(ok, step='qudit Weyl pair', d=d)
+        except Exception as e:
+            from vf.prover import from_repo
+            if not from_repo(e):
+                raise
+            chk(False, step='qudit exception', d=d, exception=f'{type(e).__name__}: {e}')
     return [ob(f'{PROP}.circuit_histories.query_modify_query', 'pass' if bad is None else 'refuted', tier='B', backend='native',
                functions=['numqi.sim.circuit:Circuit.to_unitary', 'numqi.sim.circuit:Circuit.apply_state', 'numqi.sim.circuit:Circuit.shift_qubit_index_', 'numqi.sim._internal:ParameterGate.set_args'],
                evaluations=cnt, distinct_nontrivial=cnt, witness=bad, native=dict(confirmed=bad is not None), sample=dict(steps=['fresh', 'set_args', 'append', 'set_args', 'shift']))]
